@@ -117,13 +117,20 @@ def _(c):
 
 @contract(NQ + "count_descendants", props=("C10",))
 def _(c):
-    c.param("self", "node").param("leaves_only", "false")
+    c.param("self", "node").param("leaves_only", "false", "true")
     c.families = ("plain",)
     c.result_tag = "int"
     c.pure()
     c.requires("wf", lambda x: And(wf0(x), self_in_P(x)))
-    c.ensures("result == number of nodes in the pre-order of the branch", lambda x: x.r == L.Len(L.pre_post(x.h0)[0](x.a.self)))
-    c.loop(1).invariant = lambda x: x.v.i == x.k
+
+    def post(x):
+        seq = L.pre_post(x.h0)[0](x.a.self)
+        if z3.is_true(x.a.leaves_only):
+            return x.r == L.leaf_count(x.h0)(seq, L.Len(seq))
+        return x.r == L.Len(seq)
+
+    c.ensures("result == number of nodes in the pre-order of the branch (leaves_only: of those without children)", post)
+    c.loop(1).invariant = lambda x: x.v.i == (L.leaf_count(x.h0)(L.pre_post(x.h0)[0](x.a.self), x.k) if z3.is_true(x.a.leaves_only) else x.k)
     c.loop(1).modifies = ()
 
 
